@@ -110,7 +110,7 @@ class Gen:
             f.update(self.attrs())
             if style == "named" and rng.random() < 0.15:
                 f["rename"] = "r%d_%s" % (i, rng.choice(["x", "long_name", "Q"]))
-            if style == "named" and not flatten and rng.random() < 0.08 and not (f["get"] or f["getmut"]):
+            if style == "named" and not flatten and rng.random() < 0.10:
                 f["defer"] = True     # #[tree(typ=.., defer=self.h<i>)] f<i>: ()  +  #[tree(skip)] h<i>: T
             fields.append(f)
         # skipped fields: anywhere in a named struct, only at the end of a tuple struct
@@ -310,6 +310,8 @@ def rust_defs(t, out, seen):
         for i, f in enumerate(t["fields"]):
             fty = rust_type(f["t"])
             acc = ("self.%s" % f["name"]) if named else ("self.%d" % i)
+            if f["defer"]:
+                acc = "self.h_%s" % f["name"]
             if f["defer"]:
                 lines.append('    %s%s: (),' % (attr_list(f, ['typ = "%s"' % fty, "defer = self.h_%s" % f["name"]]), f["name"]))
                 lines.append('    #[tree(skip)] h_%s: %s,' % (f["name"], fty))
